@@ -66,6 +66,39 @@ func vSameDump(a, b *DB, kp *vPool, id string) {
 			ia.Next()
 			ib.Next()
 		}
+		// a partially consumed iterator that is rewound, and one that is repositioned by Seek, must agree too
+		ia.Rewind()
+		ib.Rewind()
+		if ia.Valid() && ib.Valid() {
+			ia.Next()
+			ib.Next()
+		}
+		ia.Rewind()
+		ib.Rewind()
+		for ia.Valid() || ib.Valid() {
+			verifAssert(ia.Valid() == ib.Valid(), id+".rewound-iter-length-differs")
+			if !ia.Valid() || !ib.Valid() {
+				break
+			}
+			verifAssert(len(ia.Key()) == len(ib.Key()), id+".rewound-iter-keylen-differs")
+			verifAssert(verifBytesEq(ia.Key(), ib.Key()), id+".rewound-iter-order-differs")
+			ia.Next()
+			ib.Next()
+		}
+		if len(kp.keys) > 0 {
+			ia.Seek(kp.keys[len(kp.keys)-1])
+			ib.Seek(kp.keys[len(kp.keys)-1])
+			for ia.Valid() || ib.Valid() {
+				verifAssert(ia.Valid() == ib.Valid(), id+".seek-iter-length-differs")
+				if !ia.Valid() || !ib.Valid() {
+					break
+				}
+				verifAssert(len(ia.Key()) == len(ib.Key()), id+".seek-iter-keylen-differs")
+				verifAssert(verifBytesEq(ia.Key(), ib.Key()), id+".seek-iter-order-differs")
+				ia.Next()
+				ib.Next()
+			}
+		}
 		ia.Close()
 		ib.Close()
 	}
